@@ -259,7 +259,7 @@ def run_check(ctx):
     build.ensure("hooked")
     tier = ctx.tier
     dump = os.path.join(ctx.tmp, "dump.ndjson")
-    res = tlc.run("MacroMC", CFG[tier], env={"VERIF_DUMP": dump}, timeout=1500 if tier == "quick" else 3000)
+    res = tlc.run("MacroMC", CFG[tier], env={"VERIF_DUMP": dump, "JAVA_TOOL_OPTIONS": "-Xss256m"}, timeout=1500 if tier == "quick" else 3000)
     ctx.add_tlc(res)
     if res.verdict == "invariant":
         raise MachineryError("MacroRef: sanity invariant %s violated by the reference algorithm\n%s" % (res.violated, res.out[-2500:]))
